@@ -26,6 +26,8 @@ Msgs == { St(c, "PRIVMSG", <<t, <<"hi: there">>>>) : c \in {A, B, C, D}, t \in T
 (* membership and nick changes before the send only from the untoggled start state *)
 Enabled(st) == st.c \in DOMAIN S.conns /\ (st \in Later => hist = Pre)
 Steps == {st \in Later \cup Msgs : Enabled(st)}
+Depth == 0
+DepthT == 0
 Init == InitWithToggles(Cfg, Pre, Toggles)
 Next == NextWith(Steps)
 Spec == Init /\ [][Next]_vars
